@@ -20,7 +20,8 @@ CHECKS = {
         "other",
         "Contracts proved for all inputs: the 'which index survives' rule (legs_union, get_legs, get_involved, compute_contracted_info), the per-node recipes "
         "(get_einsum_eq is a faithful renaming of the index strings for any number of indices; get_tensordot_axes pairs exactly the shared positions; get_tensordot_perm "
-        "ranks the declared indices by tensordot-output position). The value property "
+        "ranks the declared indices by tensordot-output position), the schedule (extract_contractions: the k-th entry is the k-th traversal step with the recipe of its own parent) "
+        "and its execution (Contractor.__call__: for every valid schedule no lookup fails and each step stores the recipe's combination of its two children's arrays, in order, under the parent). The value property "
         "tree.contract == einsum with the declared axis order is checked bounded-symbolically: the real contract code runs on polynomial-valued "
         "arrays (equality for ALL array entries at a shape) over complete small network scopes x ALL binary trees x execution options. "
         "Right level because array/string code (numpy, index strings) is outside any SMT encoding available here.",
@@ -51,7 +52,9 @@ CHECKS = {
     "C05": _c(
         "exploration",
         "Run-time postcondition (complete, well-formed binary tree / valid linear path) on every finder entry point, exhaustively over small network scopes including the "
-        "1- and 2-tensor, scalar, disconnected and hyper cases, plus seeded samples of each registered search space. Helpers linear_to_ssa/ssa_to_linear are proved. "
+        "1- and 2-tensor, scalar, disconnected and hyper cases, plus seeded samples of each registered search space. Proved for all inputs: linear_to_ssa/ssa_to_linear, and the node bookkeeping of the lightweight processor behind "
+        "greedy/optimal/random-greedy (pop_node, add_node, contract_nodes: exactly two live nodes leave, one fresh node arrives, exactly that step is recorded; "
+        "optimize_remaining_by_size ends with exactly one live node from any state). "
         "Exploration level: the finders wrap third-party partitioners and heuristics for which no contract within reach is decidable.",
         "kahypar/cmaes/nevergrad untrusted but unverified; only their outputs are checked.",
     ),
@@ -146,7 +149,8 @@ CHECKS = {
     ),
     "C19": _c(
         "other",
-        "Proved over mathematical reals (10**x uninterpreted with the exponent laws): add_maybe_exponent_stripped preserves mantissa*10**exponent in all four tuple/plain combinations. "
+        "Proved over mathematical reals (10**x uninterpreted with the exponent laws): add_maybe_exponent_stripped preserves mantissa*10**exponent in all four tuple/plain combinations; the exponent bookkeeping of Contractor.__call__ "
+        "(array stored = intermediate / factor, exponent += log10(factor), for whatever factor is split off). "
         "Bounded: strip_exponent results vs a log-domain exact reference over per-tensor scales in {-100..100}.",
         "Floats treated as reals in the proof: absence of overflow is only checked bounded.",
     ),
